@@ -85,6 +85,10 @@ def r4_schema_export(P, rep, ctx):
     t = norm(fi.node)
     ok = "for cname, cval in model.__constants__.items()" in t and "schema['properties'][cname] = True" in t and "schema[KEY_SCHEMA_CONSTFLDS][cname] = cval" in t and "schema[KEY_SCHEMA_CONSTFLDS] = {}" in t
     rep.check(ok, "C20.R4", fi.qual, "every constant is listed under properties and stored under the constants key of the JSON Schema", fi.loc(), construct="schema_extra constants", message="schema_extra does not export every constant field (properties + $metador_constants)")
+    gse = ctx.cfg(fi)
+    ct = [x.idx for x in gse.nodes if x.kind == "test" and norm(x.exprs[0]) == "model.__constants__"]
+    cl = [n.idx for n in gse.nodes if n.kind == "for" and norm(n.stmt.iter) == "model.__constants__.items()"]
+    rep.check(bool(ct) and bool(cl) and all(gse.edge_dominates(x, "T", l) for x in ct for l in cl) and all(gse.every_path_passes(cl, gse.exit, src=x, src_label="T") for x in ct), "C20.R4", fi.qual, "constants are exported exactly when the schema has some", fi.loc(), construct="constants export condition", message="schema_extra exports constants on the wrong branch")
     rep.check("model = UndefVersion._unwrap(model) or model" in t, "C20.R4", fi.qual, "marked (version-less) classes export the schema of the real class", fi.loc(), construct="unwrap in schema_extra", message="schema_extra does not unwrap marked classes")
     ms = P.func("schema.parser.ParserMixin.__modify_schema__")
     t = norm(ms.node)
